@@ -257,10 +257,6 @@ def normAtom : Atom → Atom
   | .iv u _ => .iv u .none
   | a => a
 
-def normName (C : CaseOps) : Obj → Obj
-  | .atom (.str s) => .atom (.str (C.lower s))
-  | o => o
-
 mutual
 /-- erase identities, numeric Python types, the lexical case of names (slots compared with `_eq_name`) and of
     dict keys; keeps the order of dict items -/
@@ -280,10 +276,14 @@ def normAttrs (C : CaseOps) : List Cmp → List Obj → List Obj
   | c :: cs, a :: as =>
     (match c with
      | .skip => Obj.none
-     | .name => normName C a
+     | .name =>
+       (match a with
+        | .atom (.str s) => Obj.atom (.str (C.lower s))
+        | _ => norm C a)
      | .item => norm C a
      | .dict => norm C a) :: normAttrs C cs as
-  | _, _ => []
+  | [], a :: as => norm C a :: normAttrs C [] as
+  | _, [] => []
 end
 
 /-! ### concrete `str.lower` / `str.casefold` for the driver (alphabet of the harness generators) -/
@@ -331,15 +331,14 @@ def copyAct (k : Kind) (slot : String) : CopyAct :=
 
 def copySpec (k : Kind) : List CopyAct := (slotsOf k).map (copyAct k)
 
-/-- state of the identity allocator -/
-abbrev Alloc := Nat
+/-! the identity allocator is a counter `n : Nat`: the next unused identity -/
 
 /-- mirrors CIMInstanceName.copy(): new object, new keybindings dict, values shared -/
-def copyInstanceName (n : Alloc) : Obj → Obj × Alloc
+def copyInstanceName (n : Nat) : Obj → Obj × Nat
   | .node _ .instanceName [cn, .dict _ es, h, ns] => (.node n .instanceName [cn, .dict (n + 1) es, h, ns], n + 2)
   | o => (o, n)
 
-def copySlot (n : Alloc) : CopyAct → Obj → Obj × Alloc
+def copySlot (n : Nat) : CopyAct → Obj → Obj × Nat
   | .share, o => (o, n)
   | .newDict, .dict _ es => (.dict n es, n + 1)
   | .newDict, o => (o, n)
@@ -349,7 +348,7 @@ def copySlot (n : Alloc) : CopyAct → Obj → Obj × Alloc
   | .shallow, .node _ k as => (.node n k as, n + 1)
   | .shallow, o => (o, n)
 
-def copySlots (n : Alloc) : List CopyAct → List Obj → List Obj × Alloc
+def copySlots (n : Nat) : List CopyAct → List Obj → List Obj × Nat
   | c :: cs, a :: as =>
     let (a', n') := copySlot n c a
     let (as', n'') := copySlots n' cs as
@@ -357,7 +356,7 @@ def copySlots (n : Alloc) : List CopyAct → List Obj → List Obj × Alloc
   | _, _ => ([], n)
 
 /-- mirrors `<class>.copy()` and NocaseDict.copy() -/
-def copyObj (n : Alloc) : Obj → Obj × Alloc
+def copyObj (n : Nat) : Obj → Obj × Nat
   | .node _ k as =>
     let (as', n') := copySlots (n + 1) (copySpec k) as
     (.node n k as', n')
@@ -366,7 +365,7 @@ def copyObj (n : Alloc) : Obj → Obj × Alloc
 
 /-- mirrors copy.copy(): SlottedPickleMixin.__getstate__/__setstate__ re-bind every slot to the same object;
     a NocaseDict gets a new internal dict with the same values; a list a new list -/
-def shallowObj (n : Alloc) : Obj → Obj × Alloc
+def shallowObj (n : Nat) : Obj → Obj × Nat
   | .node _ k as => (.node n k as, n + 1)
   | .dict _ es => (.dict n es, n + 1)
   | .list _ xs => (.list n xs, n + 1)
@@ -374,16 +373,16 @@ def shallowObj (n : Alloc) : Obj → Obj × Alloc
 
 mutual
 /-- mirrors copy.deepcopy() / pickle round trip on a tree without internal aliasing: everything mutable is new -/
-def deepObj (n : Alloc) : Obj → Obj × Alloc
+def deepObj (n : Nat) : Obj → Obj × Nat
   | .none => (.none, n)
   | .atom a => (.atom a, n)
   | .list _ xs => let (xs', n') := deepList (n + 1) xs; (.list n xs', n')
   | .dict _ es => let (es', n') := deepEntries (n + 1) es; (.dict n es', n')
   | .node _ k as => let (as', n') := deepList (n + 1) as; (.node n k as', n')
-def deepList (n : Alloc) : List Obj → List Obj × Alloc
+def deepList (n : Nat) : List Obj → List Obj × Nat
   | [] => ([], n)
   | a :: as => let (a', n') := deepObj n a; let (as', n'') := deepList n' as; (a' :: as', n'')
-def deepEntries (n : Alloc) : List (Key × Obj) → List (Key × Obj) × Alloc
+def deepEntries (n : Nat) : List (Key × Obj) → List (Key × Obj) × Nat
   | [] => ([], n)
   | (k, v) :: es => let (v', n') := deepObj n v; let (es', n'') := deepEntries n' es; ((k, v') :: es', n'')
 end
